@@ -816,10 +816,10 @@ func (r *runningStep) processInput(input executeInput) {
 		unresolvableStage = StageIDOutputs
 		unresolvableError = fmt.Errorf("foreach subworkflow failed with errors (%v)", errors)
 		outputID = "error"
-		dataMap := make(map[int]any, len(input.data))
+		dataMap := make(map[int64]any, len(input.data))
 		for i, entry := range outputs {
 			if entry != nil {
-				dataMap[i] = entry
+				dataMap[int64(i)] = entry
 			}
 		}
 		outputData = map[string]any{
@@ -860,9 +860,9 @@ func (r *runningStep) processInput(input executeInput) {
 }
 
 // returns true if there is an error.
-func (r *runningStep) executeSubWorkflows(input executeInput) ([]any, map[int]string) {
+func (r *runningStep) executeSubWorkflows(input executeInput) ([]any, map[int64]string) {
 	itemOutputs := make([]any, len(input.data))
-	itemErrors := make(map[int]string, len(input.data))
+	itemErrors := make(map[int64]string, len(input.data))
 	wg := &sync.WaitGroup{}
 	wg.Add(len(input.data))
 	sem := make(chan struct{}, input.parallelism)
@@ -885,7 +885,7 @@ func (r *runningStep) executeSubWorkflows(input executeInput) ([]any, map[int]st
 				// An item that never ran is a failed item; without an entry here the loop
 				// would report success with a missing result for this index.
 				r.lock.Lock()
-				itemErrors[i] = "aborted before execution because the step was closed"
+				itemErrors[int64(i)] = "aborted before execution because the step was closed"
 				r.lock.Unlock()
 				return
 			}
@@ -895,11 +895,11 @@ func (r *runningStep) executeSubWorkflows(input executeInput) ([]any, map[int]st
 			r.lock.Lock()
 			switch {
 			case err != nil:
-				itemErrors[i] = err.Error()
+				itemErrors[int64(i)] = err.Error()
 			case outputID != "success":
 				// Only the success output of the subworkflow matches the item type of the
 				// loop's success output; any other output counts as a failed item.
-				itemErrors[i] = fmt.Sprintf("subworkflow finished with output '%s' instead of 'success'", outputID)
+				itemErrors[int64(i)] = fmt.Sprintf("subworkflow finished with output '%s' instead of 'success'", outputID)
 			default:
 				itemOutputs[i] = outputData
 			}
